@@ -17,6 +17,11 @@ NOT_PROVED = ["pow rounding in the power-law measures (Float twin vs impl, measu
               "inverse relation for cut_off > 0 (approximate by construction; evaluated numerically only)"]
 
 
+# exponents NEAR a special value (lesson 15): decimal truncations of 1/k and 1/k one part in 10^6 .. 10^7 away (round 8, seed C13-r8-2:
+# a whole-number exponent shortcut for |1/b - round(1/b)| < 1e-5)
+NEAR_RECIPROCAL_B = [0.333333, 0.142857, 0.111111, 0.166667, 0.0909091, 0.2 * (1 + 1e-6), 0.25 * (1 - 3e-7), 0.5 * (1 + 2e-6), 0.3333333]
+
+
 def tv(v):
     return sum(abs(b - a) for a, b in zip(v, v[1:]))
 
@@ -136,7 +141,7 @@ def power_law(ctx):
             v = gen.noise_record(rng, n)
             kind = 'noise'
         # (+ source hints: exponent b and cut_off at / around every new float constant of the anchored files)
-        b = rng.choice([0.05001, 0.1, 0.25, 0.34, 0.5, 1.0] + gen.hint_values(ctx, 0.0501, 1.0, cap=10, maps=(lambda c: c, lambda c: 1 / c))) if rng.random() < 0.6 else rng.uniform(0.0501, 1.0)
+        b = rng.choice([0.05001, 0.1, 0.25, 0.34, 0.5, 1.0] + NEAR_RECIPROCAL_B + gen.hint_values(ctx, 0.0501, 1.0, cap=10, maps=(lambda c: c, lambda c: 1 / c))) if rng.random() < 0.6 else rng.uniform(0.0501, 1.0)
         cut = rng.choice([0.0, 0.0, 0.01, 0.05, 0.1] + gen.hint_values(ctx, 1e-6, 0.5, cap=10))
         peak = float(np.max(np.abs(v)))
         a_ref = peak * rng.choice([0.3, 0.65, 1.0, 2.0])
@@ -180,7 +185,7 @@ def power_law(ctx):
                 amp = im.calc_cyc_amp_array_w_power_law(v, float(n0[-1]), b)[-1]
                 ctx.oracle('C13.d mutual inverse: amplitude(N = cycles(a_ref)) == a_ref', abs(amp - a_ref) <= 1e-8 * a_ref, inputs,
                            detail={'amp': float(amp), 'a_ref': a_ref, 'n_series_last': float(n0[-1])})
-        alpha = rng.choice([0.5, 2.0, 3.0, 10.0])
+        alpha = rng.choice([0.5, 2.0, 3.0, 10.0, 1000.0, 1e-3])
         am2 = im.calc_cyc_amp_array_w_power_law(alpha * v, n_cyc, b).reshape(-1)
         ctx.oracle('C13.d amplitude scales linearly with the record', bool(np.allclose(am2, alpha * am, rtol=1e-9, atol=1e-12 * peak)), inputs,
                    detail={'alpha': alpha})
